@@ -48,7 +48,7 @@ inline std::string fmt_f64(u64 b) { double d; std::memcpy(&d, &b, 8); return dbl
 inline std::vector<Entry> build_catalog(int level, bool with_nan_args)
   {
   std::vector<Entry> cat;
-  std::vector<u64> Su = as_u64(S_set(level ? 8 : 6, 4, with_nan_args));
+  std::vector<u64> Su = as_u64(merge_sets(S_set(level ? 8 : 6, 4, with_nan_args), S2_set(level ? 3 : 2)));
   for( i64 d = -(1 << 12); d <= (1 << 12); ++d ) Su.push_back(static_cast<u64>(d));
   std::sort(Su.begin(), Su.end()); Su.erase(std::unique(Su.begin(), Su.end()), Su.end());
   std::vector<u64> Sb = as_u64(S_set(level ? 4 : 3, level ? 2 : 1, with_nan_args));
@@ -125,6 +125,10 @@ inline std::vector<Entry> build_catalog(int level, bool with_nan_args)
   for( int t : ALL_TYPES )
     { Entry e; e.name = std::string("static_cast<") + TN[t] + ">(x) twice in one function, x modified in between"; e.dbl = t == T_F64;
       e.call = [t](Shim* s, u64 a, u64 b) { u64 r1 = 0, r2 = 0; s->fm_seq_conv(t, static_cast<i64>(a), static_cast<i64>(b), &r1, &r2); return r2 ^ (r1 * 0x9e3779b97f4a7c15ull); };
+      e.A = sv; e.B = sv; e.afmt = fmt_i; e.bfmt = fmt_i; cat.push_back(e); }
+  for( int op = 0; op < U_COUNT; ++op )
+    { Entry e; e.name = std::string(UN[op]) + " called twice on one object, modified in between"; e.sqrt_dep = op == U_SQRT || op == U_ASIN || op == U_ACOS;
+      e.call = [op](Shim* s, u64 a, u64 b) { i64 r1 = 0, r2 = 0; s->fm_seq_un(op, static_cast<i64>(a), static_cast<i64>(b), &r1, &r2); return static_cast<u64>(r2) ^ (static_cast<u64>(r1) * 0x9e3779b97f4a7c15ull); };
       e.A = sv; e.B = sv; e.afmt = fmt_i; e.bfmt = fmt_i; cat.push_back(e); }
   std::vector<u64> cv = as_u64(std::vector<i64>{ 0, 1, 65536, -65536, 3 * 65536, -98304, 205887, 1ll << 40, -(1ll << 46), 1ll << 62, 0x7ffffffffffffffell, -0x7ffffffffffffffell });
   for( int o1 = 0; o1 < 4; ++o1 ) for( int o2 = 0; o2 < 4; ++o2 )
